@@ -130,6 +130,7 @@ AUX_SOURCE = '''"""auxiliary mapped classes of the krrood verification harness (
 from __future__ import annotations
 
 from dataclasses import dataclass, field
+from types import FunctionType
 
 from typing_extensions import List, Optional
 
@@ -246,9 +247,96 @@ class AuxCamera(AuxSensor):
 class AuxRig:
     sensors: List[AuxSensor] = field(default_factory=list)
     main: Optional[AuxSensor] = None
+
+
+# function-valued fields (alternatively mapped by krrood's FunctionMapping): same __name__ on different owners
+def run():
+    return "module.run"
+
+
+def step():
+    return "module.step"
+
+
+def aux_unique():
+    return "module.aux_unique"
+
+
+class AuxLoader:
+    @staticmethod
+    def run():
+        return "AuxLoader.run"
+
+    def step(self=None):
+        return "AuxLoader.step"
+
+
+class AuxSaver:
+    @staticmethod
+    def run():
+        return "AuxSaver.run"
+
+    @staticmethod
+    def step():
+        return "AuxSaver.step"
+
+
+@dataclass
+class AuxJob:
+    name: str
+    action: FunctionType
+    fallback: Optional[FunctionType] = None
+
+
+@dataclass
+class AuxPipeline:
+    jobs: List[AuxJob] = field(default_factory=list)
+    on_error: Optional[FunctionType] = None
+
+
+# a mapped root whose mapped descendants are reached only through classes that are NOT given to ORMatic
+@dataclass
+class AuxDevice:
+    name: str
+    serial: int
+
+
+@dataclass
+class AuxCalibrated(AuxDevice):
+    """behaviour only; not part of the persisted model"""
+
+    def describe(self) -> str:
+        return f"{self.name}#{self.serial}"
+
+
+@dataclass
+class AuxScanner(AuxCalibrated):
+    resolution: int
+
+
+@dataclass
+class AuxTuned(AuxScanner):
+    """not part of the persisted model either"""
+
+    def tuned(self) -> bool:
+        return True
+
+
+@dataclass
+class AuxTurboScanner(AuxTuned):
+    wavelength: float
+
+
+@dataclass
+class AuxWorkbench:
+    label: str
+    devices: List[AuxDevice] = field(default_factory=list)
+    primary: Optional[AuxDevice] = None
 '''
 AUX_CLASSES = ["AuxPoint", "AuxPolyline", "AuxDrawing", "AuxWaypoint", "AuxTrajectory", "AuxMission", "AuxSchedule",
-               "AuxFrame", "AuxTag", "AuxSensor", "AuxCamera", "AuxRig"]
+               "AuxFrame", "AuxTag", "AuxSensor", "AuxCamera", "AuxRig", "AuxJob", "AuxPipeline",
+               "AuxDevice", "AuxScanner", "AuxTurboScanner", "AuxWorkbench"]  # NOT AuxCalibrated, AuxTuned
+FUNCTION_POOL = ["run", "AuxLoader.run", "AuxSaver.run", "step", "AuxLoader.step", "AuxSaver.step", "aux_unique"]
 SCHEMA.update({
     "AuxPolyline": dict(scal=[("name", "s"), ("coordinates", "lf2")], refs=[], chain=["AuxPolylineMappingDAO"],
                         kind="alt", mapping="AuxPolylineMapping"),
@@ -281,6 +369,26 @@ SCHEMA.update({
     "AuxRig": dict(scal=[], refs=[R("sensors", "many", "AuxSensor", False, "AuxRigDAO", lens=[1, 2, 2, 3, 4]),
                                   R("main", "one", "AuxSensor", True, "AuxRigDAO")],
                    chain=["AuxRigDAO"]),
+    # function objects: alternatively mapped by krrood's own FunctionMapping (module, name, owning class); a function
+    # is ONE object however often it is referenced, so a heap holds at most one node per function
+    "function": dict(scal=[("qualname", "fn")], refs=[], chain=["FunctionMappingDAO"], kind="alt",
+                     mapping="FunctionMapping"),
+    "AuxJob": dict(scal=[("name", "s")], refs=[R("action", "one", "function", False, "AuxJobDAO"),
+                                               R("fallback", "one", "function", True, "AuxJobDAO")],
+                   chain=["AuxJobDAO"]),
+    "AuxPipeline": dict(scal=[], refs=[R("jobs", "many", "AuxJob", False, "AuxPipelineDAO", lens=[1, 2, 3, 4]),
+                                       R("on_error", "one", "function", True, "AuxPipelineDAO")],
+                        chain=["AuxPipelineDAO"]),
+    # mapped root <- unmapped class <- mapped class <- unmapped class <- mapped class
+    "AuxDevice": dict(scal=[("name", "s"), ("serial", "i")], refs=[], chain=["AuxDeviceDAO"]),
+    "AuxScanner": dict(scal=[("name", "s"), ("serial", "i"), ("resolution", "i")], refs=[],
+                       chain=["AuxScannerDAO", "AuxDeviceDAO"]),
+    "AuxTurboScanner": dict(scal=[("name", "s"), ("serial", "i"), ("resolution", "i"), ("wavelength", "f")], refs=[],
+                            chain=["AuxTurboScannerDAO", "AuxScannerDAO", "AuxDeviceDAO"]),
+    "AuxWorkbench": dict(scal=[("label", "s")],
+                         refs=[R("devices", "many", "AuxDevice", False, "AuxWorkbenchDAO", lens=[1, 2, 3, 4]),
+                               R("primary", "one", "AuxDevice", True, "AuxWorkbenchDAO")],
+                         chain=["AuxWorkbenchDAO"]),
 })
 
 
@@ -300,6 +408,7 @@ MAPPING_SCHEMA: Dict[str, Dict[str, Any]] = {
     "VectorMapped": dict(scal=[("x", "f")], refs=[]),
     "TransformationMapped": dict(scal=[], refs=[R("vector", "one", "Vector", False, ""), R("rotation", "one", "Rotation", True, "")]),
     "VectorsWithPropertyMapped": dict(scal=[], refs=[R("vectors", "many", "Vector", False, "")]),
+    "FunctionMapping": dict(scal=[("module_name", "s"), ("function_name", "s"), ("class_name", "s")], refs=[]),
     "AuxSensorMapping": dict(scal=[("identifier", "s")], refs=[R("mounting_frame", "one", "AuxFrame", False, ""),
                                                                R("labels", "many", "AuxTag", False, "")]),
 }
@@ -313,6 +422,7 @@ SUBCLASSES = {
     "Entity": ["Entity", "DerivedEntity"],
     "Rotation": [],  # RotationMapped.create_from_dao returns None in the dataset: not a round-tripping pair
     "AuxSensor": ["AuxSensor", "AuxCamera", "AuxCamera"],
+    "AuxDevice": ["AuxDevice", "AuxScanner", "AuxTurboScanner"],
 }
 
 
@@ -330,6 +440,10 @@ def view_scalars(cls: str, scal: Dict[str, Any]) -> Dict[str, Any]:
         return {"values": list(scal["unmappable"].values())}
     if cls == "Vector":
         return {"x": scal["x"]}
+    if cls == "function":
+        q = scal["qualname"][1]
+        return {"module_name": AUX_MODULE, "function_name": q.split(".")[-1],
+                "class_name": q.split(".")[0] if "." in q else None}
     if cls == "AuxSensor":
         return {"identifier": scal["name"]}
     if cls == "AuxCamera":
@@ -460,6 +574,11 @@ def _dec(s: str, ex):
         return getattr(ex, cn)[mn], rest
     if c == "u":
         return _uuid.UUID(hex=body), rest
+    if c == "F":  # a function of the auxiliary module, by qualified name
+        target = sys.modules[AUX_MODULE]
+        for part in body.split("."):
+            target = getattr(target, part)
+        return target, rest
     if c == "T" or c == "P":
         cls = getattr(ex, body)
         return (cls if c == "T" else cls()), rest
@@ -483,6 +602,8 @@ def gen_scalar(rng, kind: str):
         return [rng.choice(_INTS) for _ in range(rng.choice([0, 1, 2]))]
     if kind == "li0":
         return []
+    if kind == "fn":
+        return ("fn", rng.choice(FUNCTION_POOL))
     if kind == "lf2":  # flat list of 2k floats (k vertices)
         return [rng.choice(_FLOATS + [2.0, 5.5, -7.0]) for _ in range(2 * rng.choice([0, 1, 2, 2, 3, 4]))]
     if kind == "enum":
@@ -518,6 +639,8 @@ def enc_gen(v: Any) -> str:
             return "T" + v[1]
         if v[0] == "concept":
             return "P" + v[1]
+        if v[0] == "fn":
+            return "F" + v[1]
     if isinstance(v, list):
         return "[" + ";".join(enc_gen(x) for x in v) + "]"
     if isinstance(v, dict):
@@ -694,6 +817,7 @@ ROOT_WEIGHTS = [
     ("Parent", 1), ("OriginalSimulatedObject", 1), ("Position5D", 1), ("DerivedEntity", 1), ("Orientation", 1),
     ("AuxDrawing", 5), ("AuxSchedule", 5), ("AuxMission", 2), ("AuxTrajectory", 1), ("AuxPolyline", 1),
     ("AuxRig", 6), ("AuxCamera", 3), ("AuxSensor", 1),
+    ("AuxPipeline", 6), ("AuxJob", 2), ("AuxWorkbench", 6), ("AuxScanner", 1), ("AuxTurboScanner", 1),
 ]
 
 
@@ -731,6 +855,13 @@ def gen_heap(rng, max_nodes: int = 12, p_reuse: float = 0.45, p_none: float = 0.
         return len(nodes) - 1
 
     def pick(target: str, forbid=()) -> Optional[int]:
+        if target == "function":  # one node per function object
+            fresh = _mk_node(rng, "function")
+            for i, n in enumerate(nodes):
+                if n["cls"] == "function" and n["scal"] == fresh["scal"]:
+                    return i
+            nodes.append(fresh)
+            return len(nodes) - 1
         cands = [i for i, n in enumerate(nodes) if n["cls"] in concrete(target) and i not in forbid]
         full = len(nodes) >= max_nodes or (target == "Node" and len(cands) >= MAX_SELFHIER)
         if cands and (rng.random() < p_reuse or full):
@@ -818,6 +949,9 @@ def heap_ok(heap) -> bool:
             for t in n["refs"][0]:
                 if nodes[t]["refs"][0] != i:
                     return False
+    fns = [n["scal"] for n in nodes if n["cls"] == "function"]
+    if len(set(fns)) != len(fns):  # a function is one object
+        return False
     return all(0 <= r < len(nodes) for r in heap["roots"]) and bool(heap["roots"])
 
 
@@ -903,6 +1037,13 @@ def tags_of(heap) -> Tuple[str, ...]:
                 tags.add("falsy-in-single-ref")
             if isinstance(r, list) and any(nodes[t]["cls"] == "AuxTrajectory" and not nodes[t]["refs"][0] for t in r):
                 tags.add("falsy-in-collection")
+    fnames = [dict(parse_scal(n["scal"]))["qualname"].split(".")[-1] for n in nodes if n["cls"] == "function"]
+    if fnames:
+        tags.add("function-valued")
+    if len(set(fnames)) < len(fnames):
+        tags.add("same-name-functions")
+    if any(n["cls"] in ("AuxScanner", "AuxTurboScanner") for n in nodes):
+        tags.add("unmapped-intermediate-class")
     if any(v > 1 for v in indeg.values()):
         tags.add("shared")
     if has_cycle(heap):
@@ -991,9 +1132,14 @@ def altmapped_backedge(heap) -> bool:
 def build_objects(heap, ex) -> List[Any]:
     objs = []
     for n in heap["nodes"]:
+        if n["cls"] == "function":
+            objs.append(dec(dict(parse_scal(n["scal"]))["qualname"], ex))
+            continue
         cls = getattr(ex, n["cls"], None) or getattr(sys.modules[AUX_MODULE], n["cls"])
         objs.append(cls.__new__(cls))
     for n, o in zip(heap["nodes"], objs):
+        if n["cls"] == "function":
+            continue
         for name, text in parse_scal(n["scal"]):
             object.__setattr__(o, name, dec(text, ex))
         for spec, r in zip(SCHEMA[n["cls"]]["refs"], n["refs"]):
@@ -1022,10 +1168,16 @@ def abstract(roots: List[Any]) -> Dict[str, Any]:
     num: Dict[int, int] = {}
     order: List[Any] = []
 
+    import types as _types
+
     def is_node(v) -> bool:
+        if isinstance(v, _types.FunctionType):
+            return True
         return dataclasses.is_dataclass(v) and not isinstance(v, type) and type(v).__name__ != "JSONSerializableClass"
 
     def fields_of(o):
+        if isinstance(o, _types.FunctionType):
+            return [("qualname", o)], []
         sch = _schema_of(o)
         if sch is not None:
             scal = [(n, getattr(o, n, "<missing>")) for n, _ in sch["scal"]]
@@ -1268,6 +1420,47 @@ def pmap(fn, lines: List[str]) -> List[str]:
         sys.stderr.write(traceback.format_exc()[-1500:])
         _close_pool()
         return ["exc:worker:" + type(e).__name__] * len(lines)
+
+
+def _fresh_main(repo: str, d: str, fn, line: str, q) -> None:
+    _worker_init(repo, d)
+    q.put(fn(line))
+
+
+def run_fresh(fn, line: str, timeout: int = 180) -> str:
+    """one case in a brand-new interpreter (no state left behind by earlier conversions)"""
+    import multiprocessing as mp
+    import queue as _queue
+    try:
+        d = orm_dir()
+    except Exception:  # noqa: BLE001
+        return "exc:orm-generation-failed"
+    ctx = mp.get_context("spawn")
+    q = ctx.Queue()
+    p = ctx.Process(target=_fresh_main, args=(REPO, d, fn, line, q))
+    p.start()
+    try:
+        out = q.get(timeout=timeout)
+    except _queue.Empty:
+        out = "exc:Timeout"
+        p.terminate()
+    p.join(30)
+    return out
+
+
+def run_cases(fn, cases) -> List[str]:
+    """the observation of every case; a shrink candidate that deviates in the long-lived workers is confirmed in a
+    fresh interpreter, so that a minimised replay never depends on what the worker converted before (process-wide
+    caches, allocator state)"""
+    outs = pmap(fn, [c.line for c in cases])
+    if len(cases) == 1 and getattr(cases[0], "origin", "") == "shrink":
+        try:
+            expected = canon_heap(prune(parse_heap(cases[0].line)))
+        except Exception:  # noqa: BLE001
+            return outs
+        if outs[0].split(" rows:")[0] != expected:
+            outs = [run_fresh(fn, cases[0].line)]
+    return outs
 
 
 def _exc_text(e: BaseException) -> str:
